@@ -22,7 +22,7 @@ type Divergence struct {
 	Op    Op
 	Impl  string
 	Model string
-	S     bool // spec-level divergence (property violation at this input)
+	S     bool   // spec-level divergence (property violation at this input)
 	MLine string // the line handed to the model (with data appended by the implementation side)
 }
 
@@ -284,16 +284,16 @@ func shrink(mk func() Executor, ops []Op, canon func(string) string, cl Classifi
 }
 
 type Replay struct {
-	Property   string   `json:"property"`
-	Kind       string   `json:"kind"` // "property-violation" | "correspondence-broken" | "obligation-broken"
-	Stratum    string   `json:"stratum,omitempty"`
-	Seed       uint64   `json:"seed"`
-	Ops        []string `json:"ops,omitempty"`
-	Impl       string   `json:"impl_observation,omitempty"`
-	Model      string   `json:"model_observation,omitempty"`
-	Note       string   `json:"note,omitempty"`
-	Suite      string   `json:"suite,omitempty"`
-	Signature  string   `json:"signature,omitempty"`
+	Property  string   `json:"property"`
+	Kind      string   `json:"kind"` // "property-violation" | "correspondence-broken" | "obligation-broken"
+	Stratum   string   `json:"stratum,omitempty"`
+	Seed      uint64   `json:"seed"`
+	Ops       []string `json:"ops,omitempty"`
+	Impl      string   `json:"impl_observation,omitempty"`
+	Model     string   `json:"model_observation,omitempty"`
+	Note      string   `json:"note,omitempty"`
+	Suite     string   `json:"suite,omitempty"`
+	Signature string   `json:"signature,omitempty"`
 }
 
 func writeReplay(verifDir string, r Replay) string {
